@@ -36,6 +36,10 @@ def run(ctx):
         insts += relcheck.emit(ctx, RELS, PROCS={"NC"}, PROJS={"e-"}, KINDS={"F2", "FL", "F3"},
                                SCHEMES={"ZM4", "FFNS4"}, ORDERS={"33"})
     relcheck.drive_and_validate(ctx, "C07", insts)
+    # N3LO (fl11 flavour class, a_s^3 heavy): one kinematic point per run keeps it affordable in the quick tier
+    n3 = relcheck.emit(ctx, ["PositivitySum", "ZMTotalIsLight", "FFNSPartition"], PROCS={"NC"} if q else {"EM", "NC"}, PROJS={"e-"},
+                       KINDS={"F2"} if q else {"F2", "FL"}, SCHEMES={"ZM4"} if q else {"ZM4", "ZM5", "FFNS4"}, ORDERS={"33"})
+    relcheck.drive_and_validate(ctx, "C07", n3, extra=dict(xs=[0.23]))
     if not q:
         # with target-mass corrections switched on the partitions still hold (TMC is linear)
         tm = relcheck.emit(ctx, ["FFNSPartition", "ZMTotalIsLight"], PROCS={"NC"}, PROJS={"e-"}, KINDS={"F2", "FL"},
